@@ -2,7 +2,9 @@
    emit on DatabaseBackend::MySql (sea-query 0.32.7 backend/mysql/{table,index,foreign_key}.rs and the raw
    format! strings of the builders).  User-supplied fragments (default expressions, CHECK expressions,
    fill values, raw SQL, comments) are carried verbatim.  No proofs here. *)
-From VV.M1 Require Export Apply.
+From VV.M1 Require Export Oracles.
+
+Definition is_some {A} (o : option A) : bool := match o with Some _ => true | None => false end.
 
 (* a column definition as sea-query's prepare_column_def prints it: `name` type [NOT NULL] [DEFAULT e]
    [PRIMARY KEY] [AUTO_INCREMENT], plus the COMMENT '...' that modify_column_comment.rs appends by hand *)
